@@ -20,9 +20,12 @@ PDU = {
 }
 
 
-def good_create(supi):
-    return dict(subscriberIdentifier=supi, nfConsumerIdentification=dict(nFName="smf", nodeFunctionality="SMF"),
-                invocationSequenceNumber=1, notifyUri="{SINK}/n", chargingId=3)
+def good_create(supi, notify=True):
+    b = dict(subscriberIdentifier=supi, nfConsumerIdentification=dict(nFName="smf", nodeFunctionality="SMF"),
+             invocationSequenceNumber=1, notifyUri="{SINK}/n", chargingId=3)
+    if not notify:
+        del b["notifyUri"]
+    return b
 
 
 def usage(kind):
@@ -47,13 +50,14 @@ def to_case(hist, bid):
     supi = SUPI[s["supi"]]
     reqs = []
     if s["prior"] in ("created", "debit"):
-        reqs.append(dict(role="prior", method="POST", path="/chargingdata", body=json.dumps(good_create(supi))))
+        reqs.append(dict(role="prior", method="POST", path="/chargingdata",
+                         body=json.dumps(good_create(supi, s.get("notify", "present") == "present"))))
     if s["prior"] == "debit":
         b = dict(subscriberIdentifier=supi, invocationSequenceNumber=2, multipleUnitUsage=usage("online_req"), triggers=TRIG["final"])
         reqs.append(dict(role="prior", method="POST", path="/chargingdata/{REF}/update", body=json.dumps(b)))
     ep = s["ep"]
     if ep == "create":
-        b = good_create(supi)
+        b = good_create(supi, s.get("notify", "present") == "present")
         if s["nfci"] == "absent":
             del b["nfConsumerIdentification"]
         elif s["plmn"] != "absent":
@@ -91,7 +95,8 @@ def cfg(tier):
         Nfcis=S("present", "absent"), Plmns=S("absent", "ok", "ok3", "shortmcc", "shortmnc", "emptymnc"),
         Pdus=S("absent", "full", "no_info", "no_slice", "no_snssai"),
         Usages=S("none", "online_req", "online_noreq", "offline"), Trigs=S("none", "partial", "final"),
-        Rparams=S("u_1", "u", "u_x", "_", "u_1_2"), Priors=S("fresh", "created", "debit"), EmitOneIn=1)
+        Rparams=S("u_1", "u", "u_x", "_", "u_1_2"), Priors=S("fresh", "created", "debit"), Notifys=S("present", "absent"),
+        EmitOneIn=1)
     return c, 100000
 
 
